@@ -286,7 +286,7 @@ def _reed_muller_netlist(n, cols, prefix):
 def subcircuit_cases(draw, tier):
     nl = draw(gen.netlists(min_inputs=1, max_inputs=5, min_gates=2, max_gates=18 if tier == 'thorough' else 14,
                            max_arity=3, styles=('plain', 'mixed'), min_outputs=1, max_outputs=4))
-    return {'nl': nl, 'route': draw(gen.routes(nl)),
+    return {'nl': nl, 'route': draw(gen.routes(nl)), 'blocks': _blocks(draw, nl) if draw(st.booleans()) else [],
             'roots': [draw(st.integers(0, 40)) for _ in range(draw(st.integers(1, 2)))],
             'grow': [draw(st.integers(0, 40)) for _ in range(draw(st.integers(0, 6)))],
             'form': draw(st.sampled_from(['dnf', 'rm', 'chain'])),
@@ -403,6 +403,7 @@ def check_subcircuit(case):
         inputs_mapping[need_out[0]] = rep['inputs'][0]
         applied = fault
     c = build.build(nl, case['route'])
+    _make_blocks(c, nl, case.get('blocks', []))
     sub = build.build({'inputs': rep['inputs'], 'gates': rep['gates'], 'outputs': rep['outputs']})
     t_before = refsem.out_tables(nl)
     n_in, n_out = len(nl['inputs']), len(nl['outputs'])
@@ -433,6 +434,8 @@ def check_subcircuit(case):
     if t_after != t_before:
         raise Violation('replace_truth_table', f'truth table changed (fault={applied}); cone {sorted(S)} boundary {I} outputs {need_out}')
     cls = {'replaced', 'fault:' + applied, 'form:' + case['form'], 'labels:' + case['label_mode'], f'boundary={k}'}
+    if case.get('blocks'):
+        cls.add('host_has_blocks')
     if len(need_out) > len(roots):
         cls.add('extra_outputs')
     if any(o in nl['outputs'] for o in need_out):
